@@ -11,6 +11,8 @@ From I18n Require Model.MoParser Model.FmtC Model.Header Model.Messages Model.Da
 From I18n Require Props.C09 Props.C11 Props.C15 Props.C16 Props.C18 Props.C19 Props.C20.
 From Coq Require Import Bool String.
 From I18n Require Model.Handlers Generated.RaiseSites Proofs.Handlers.
+From I18n Require Model.Check Proofs.Check.
+From I18n Require Import Model.Tags.
 Import ListNotations.
 Local Open Scope Z_scope.
 
@@ -78,6 +80,245 @@ Theorem C01_charset_proposal_total : forall o, EncodingsTable.ascii_cased o -> f
   Encodings.propose_portable_encoding Encodings.real_enc_data o enc <> Crash c.
 Proof. exact C20.C20_proposal_never_asserts. Qed.
 Print Assumptions C01_charset_proposal_total.
+
+(* ---- the orchestration Checker.check() itself (Model/Check.v): the os.stat guard, the choice of the loader, the two attempts,
+   the except / finally clauses, ctx and the order of the sub-checks.  os.stat and the loaders are oracles: [st] is what os.stat
+   did, [load c enc] what `constructor(path[, encoding=enc])` does (one of the six classes of MC.load_result), for ALL of them. *)
+Module MC := I18n.Model.Check.
+Module PC := I18n.Proofs.Check.
+
+(* exception flow: an exception propagates out of check() exactly when os.stat raised something that is not an OSError, or the
+   LAST attempt of the loader raised (a) an exception that is neither moparser.SyntaxError nor OSError, (b) an OSError without
+   errno whose message does not start with 'Syntax error in po file ', (c) UnicodeDecodeError again on the ISO-8859-1 retry *)
+Theorem C01_glue_raises_iff : forall upper st ft path load e,
+  MC.r_end (MC.check_top upper st ft path load) = MC.Raised e <->
+  (exists n, st = MC.StatOther n /\ e = MC.RExc n) \/
+  (st = MC.StatOk /\ exists c t b, MC.dispatch (MC.extension ft path) = Some (c, t, b) /\ PC.escapes (PC.last_attempt load c) e).
+Proof. exact PC.check_top_raises_iff. Qed.
+Print Assumptions C01_glue_raises_iff.
+
+(* ... and in every other case it returns normally *)
+Theorem C01_glue_returns_unless : forall upper st ft path load,
+  (forall n, st <> MC.StatOther n) ->
+  (forall c e, ~ PC.escapes (PC.last_attempt load c) e) ->
+  MC.r_end (MC.check_top upper st ft path load) = MC.Returned \/
+  exists t b reset, MC.r_end (MC.check_top upper st ft path load) = MC.RunSubchecks t b reset.
+Proof. exact PC.check_top_returns_unless. Qed.
+Print Assumptions C01_glue_returns_unless.
+
+(* a decode error can only be the outcome of the last attempt when the retry raised it *)
+Theorem C01_glue_last_attempt_decode : forall load c o s e,
+  PC.last_attempt load c = MC.LDecodeError o s e ->
+  PC.is_decode_error (load c None) = true /\ load c (Some MC.latin1) = MC.LDecodeError o s e.
+Proof. exact PC.last_attempt_decode. Qed.
+Print Assumptions C01_glue_last_attempt_decode.
+
+(* the sub-checks run exactly when the last attempt returned a file; is_template, is_binary, the encoding reset *)
+Theorem C01_glue_subchecks_run_iff : forall upper st ft path load t b reset,
+  MC.r_end (MC.check_top upper st ft path load) = MC.RunSubchecks t b reset <->
+  st = MC.StatOk /\ exists c, MC.dispatch (MC.extension ft path) = Some (c, t, b) /\ PC.last_attempt load c = MC.LFile /\
+                            reset = PC.is_decode_error (load c None).
+Proof. exact PC.check_top_runs_iff. Qed.
+Print Assumptions C01_glue_subchecks_run_iff.
+
+Theorem C01_glue_ctx_flags : forall upper st ft path load t b reset,
+  MC.r_end (MC.check_top upper st ft path load) = MC.RunSubchecks t b reset ->
+  (t = true <-> MC.extension ft path = MC.lit ".pot") /\
+  (b = true <-> (MC.extension ft path = MC.lit ".mo" \/ MC.extension ft path = MC.lit ".gmo")) /\
+  (reset = true <-> exists c o s e, load c None = MC.LDecodeError o s e /\ In (c, None) (MC.r_calls (MC.check_top upper st ft path load))).
+Proof. exact PC.check_top_flags. Qed.
+Print Assumptions C01_glue_ctx_flags.
+
+(* dispatch: the loader is called iff os.stat succeeded and the extension is one of .po .pot .mo .gmo; which constructor; the
+   encoding= keyword of each call; --file-type replaces the extension of the path; os.path.splitext *)
+Theorem C01_glue_loader_called_iff : forall upper st ft path load,
+  MC.r_calls (MC.check_top upper st ft path load) <> [] <-> st = MC.StatOk /\ PC.known_ext (MC.extension ft path).
+Proof. exact PC.loader_called_iff. Qed.
+Print Assumptions C01_glue_loader_called_iff.
+
+Theorem C01_glue_loader_calls : forall upper st ft path load c enc,
+  In (c, enc) (MC.r_calls (MC.check_top upper st ft path load)) ->
+  (enc = None \/ (enc = Some MC.latin1 /\ PC.is_decode_error (load c None) = true)) /\
+  (c = MC.Pofile <-> (MC.extension ft path = MC.lit ".po" \/ MC.extension ft path = MC.lit ".pot")) /\
+  (c = MC.Mofile <-> (MC.extension ft path = MC.lit ".mo" \/ MC.extension ft path = MC.lit ".gmo")).
+Proof. exact PC.loader_calls_shape. Qed.
+Print Assumptions C01_glue_loader_calls.
+
+Theorem C01_glue_loader_calls_list : forall upper st ft path load,
+  MC.r_calls (MC.check_top upper st ft path load) =
+  match st, MC.dispatch (MC.extension ft path) with
+  | MC.StatOk, Some (c, _, _) => (c, None) :: (if PC.is_decode_error (load c None) then [(c, Some MC.latin1)] else [])
+  | _, _ => []
+  end.
+Proof. exact PC.check_top_calls. Qed.
+Print Assumptions C01_glue_loader_calls_list.
+
+Theorem C01_glue_dispatch : forall ext c t b,
+  MC.dispatch ext = Some (c, t, b) <->
+  (ext = MC.lit ".po" /\ c = MC.Pofile /\ t = false /\ b = false) \/
+  (ext = MC.lit ".pot" /\ c = MC.Pofile /\ t = true /\ b = false) \/
+  ((ext = MC.lit ".mo" \/ ext = MC.lit ".gmo") /\ c = MC.Mofile /\ t = false /\ b = true).
+Proof. exact PC.dispatch_spec. Qed.
+Print Assumptions C01_glue_dispatch.
+
+Theorem C01_glue_file_type_overrides_path : forall t path, MC.extension (Some t) path = MC.dot :: t.
+Proof. exact PC.extension_file_type. Qed.
+Print Assumptions C01_glue_file_type_overrides_path.
+
+Theorem C01_glue_splitext : forall p r,
+  MC.extension None p = MC.dot :: r <->
+  exists root, p = root ++ MC.dot :: r /\ ~ In MC.dot r /\ ~ In MC.slash r /\ exists c, In c (MC.base_name root) /\ c <> MC.dot.
+Proof. exact PC.splitext_ext_spec. Qed.
+Print Assumptions C01_glue_splitext.
+
+(* unknown-file-type iff os.stat succeeded and the extension is none of the four; then nothing else happens (C17) *)
+Theorem C01_glue_unknown_file_type_iff : forall upper st ft path load,
+  PC.has_tag (MC.lit "unknown-file-type") (MC.r_events (MC.check_top upper st ft path load)) = true <->
+  st = MC.StatOk /\ ~ PC.known_ext (MC.extension ft path).
+Proof. exact PC.unknown_file_type_iff. Qed.
+Print Assumptions C01_glue_unknown_file_type_iff.
+
+Theorem C01_glue_unknown_file_type_alone : forall upper ft path load,
+  ~ PC.known_ext (MC.extension ft path) ->
+  MC.check_top upper MC.StatOk ft path load = MC.Res [MC.Ev (MC.lit "unknown-file-type") []] [] MC.Returned.
+Proof. exact PC.unknown_file_type_alone. Qed.
+Print Assumptions C01_glue_unknown_file_type_alone.
+
+(* broken-encoding iff the first attempt raised UnicodeDecodeError; exactly once, after the (at most one) tag of an except clause;
+   its arguments; the 80-byte window *)
+Theorem C01_glue_broken_encoding_iff : forall upper st ft path load,
+  PC.has_tag (MC.lit "broken-encoding") (MC.r_events (MC.check_top upper st ft path load)) = true <->
+  st = MC.StatOk /\ exists c t b, MC.dispatch (MC.extension ft path) = Some (c, t, b) /\ PC.is_decode_error (load c None) = true.
+Proof. exact PC.broken_encoding_iff. Qed.
+Print Assumptions C01_glue_broken_encoding_iff.
+
+Theorem C01_glue_broken_encoding_once_last : forall upper ft path load c t b o s e,
+  MC.dispatch (MC.extension ft path) = Some (c, t, b) ->
+  load c None = MC.LDecodeError o s e ->
+  let r := MC.check_top upper MC.StatOk ft path load in
+  exists hev, MC.r_events r = hev ++ [MC.Ev (MC.lit "broken-encoding")
+                                        [ABytes (MC.window o s); ASafe (MC.lit "cannot be decoded as"); AStr (upper e)]] /\
+              (List.length hev <= 1)%nat /\ PC.has_tag (MC.lit "broken-encoding") hev = false /\
+              PC.count_tag (MC.lit "broken-encoding") (MC.r_events r) = 1%nat /\
+              hev = fst (MC.handlers path (load c (Some MC.latin1))).
+Proof. exact PC.broken_encoding_once_last. Qed.
+Print Assumptions C01_glue_broken_encoding_once_last.
+
+Theorem C01_glue_window : forall obj start, (0 <= start)%Z ->
+  MC.window obj start = skipn (Z.to_nat (start - 40)) (firstn (Z.to_nat start) obj) ++ firstn 40 (skipn (Z.to_nat start) obj).
+Proof. exact PC.window_spec. Qed.
+Print Assumptions C01_glue_window.
+
+Theorem C01_glue_window_length : forall obj start, (-40 <= start)%Z -> (List.length (MC.window obj start) <= 80)%nat.
+Proof. exact PC.window_length. Qed.
+Print Assumptions C01_glue_window_length.
+
+Theorem C01_glue_window_contains_start : forall obj start, (0 <= start)%Z -> (Z.to_nat start < List.length obj)%nat ->
+  nth_error (MC.window obj start) (Z.to_nat (Z.min start 40)) = nth_error obj (Z.to_nat start).
+Proof. exact PC.window_contains_start. Qed.
+Print Assumptions C01_glue_window_contains_start.
+
+(* syntax-error-in-po-file: the argument list as a function of polib's message.  The two regular expressions as equations: *)
+Theorem C01_glue_lineno_regex : forall m ds o, MC.parse_lineno m = Some (ds, o) <->
+  ds <> [] /\ forallb MC.is_digit ds = true /\
+  match o with
+  | None => m = MC.lit "(line " ++ ds ++ [41%N]
+  | Some t => m = MC.lit "(line " ++ ds ++ [41; 58; 32]%N ++ t /\ t <> [] /\ forallb (fun c => negb (N.eqb c 10)) t = true
+  end.
+Proof. exact PC.parse_lineno_spec. Qed.
+Print Assumptions C01_glue_lineno_regex.
+
+Theorem C01_glue_words_regex : forall s, MC.is_words s = true <->
+  exists w ws, PC.lower_word w /\ Forall PC.lower_word ws /\ s = w ++ flat_map (cons 32%N) ws.
+Proof. exact PC.is_words_spec. Qed.
+Print Assumptions C01_glue_words_regex.
+
+(* the prefix strip: "<path> " is dropped only when the text after the fixed prefix starts with it *)
+Theorem C01_glue_po_strip_path : forall path rest, MC.po_strip path (MC.po_prefix ++ path ++ 32%N :: rest) = rest.
+Proof. exact PC.po_strip_path. Qed.
+Print Assumptions C01_glue_po_strip_path.
+
+Theorem C01_glue_po_strip_other : forall path rest, (forall r, rest <> path ++ 32%N :: r) -> MC.po_strip path (MC.po_prefix ++ rest) = rest.
+Proof. exact PC.po_strip_other. Qed.
+Print Assumptions C01_glue_po_strip_other.
+
+Theorem C01_glue_po_error_args : forall path msg,
+  let m := MC.po_strip path msg in
+  (forall ds, PC.lineno_match m ds None -> MC.po_error_args path msg = [ASafe (MC.lit "line " ++ ds)]) /\
+  (forall ds t, PC.lineno_match m ds (Some t) ->
+     MC.po_error_args path msg = [ASafe (MC.lit "line " ++ ds ++ [58%N]); if MC.is_words t then ASafe t else AStr t]) /\
+  ((forall ds o, ~ PC.lineno_match m ds o) -> MC.po_error_args path msg = [AStr m]).
+Proof. exact PC.po_error_args_spec. Qed.
+Print Assumptions C01_glue_po_error_args.
+
+(* ---- relevant to C02 (what reaches the output verbatim): every tags.safestr argument of syntax-error-in-po-file consists of
+   characters of [a-z0-9 :] only, whatever polib's message is: nothing else from the file (or its name) goes through this path
+   unescaped.  (Lower-case ASCII words of the file DO: 'unknown keyword msgfoo' is passed as a safestr.) *)
+Theorem C01_glue_po_error_safestr_chars : forall path msg s,
+  In (ASafe s) (MC.po_error_args path msg) -> forallb PC.out_char s = true.
+Proof. exact PC.po_error_args_safe. Qed.
+Print Assumptions C01_glue_po_error_safestr_chars.
+
+(* ... and every safestr argument of every tag that check() itself emits is: the strerror of an OSError (os-error), the message of
+   moparser.SyntaxError (invalid-mo-file), the literal 'cannot be decoded as' (broken-encoding), or such a restricted string *)
+Theorem C01_glue_safestr_provenance : forall upper st ft path load ev s,
+  In ev (MC.r_events (MC.check_top upper st ft path load)) -> In (ASafe s) (MC.ev_args ev) ->
+  (MC.ev_tag ev = MC.lit "os-error" /\ (st = MC.StatOSError s \/ exists c enc, load c enc = MC.LOSErrno s)) \/
+  (MC.ev_tag ev = MC.lit "invalid-mo-file" /\ exists c enc, load c enc = MC.LMoSyntax s) \/
+  (MC.ev_tag ev = MC.lit "broken-encoding" /\ s = MC.lit "cannot be decoded as") \/
+  (MC.ev_tag ev = MC.lit "syntax-error-in-po-file" /\ forallb PC.out_char s = true).
+Proof. exact PC.check_top_safestr_provenance. Qed.
+Print Assumptions C01_glue_safestr_provenance.
+
+(* the sub-checks: fixed order, and ctx.encoding reset between check_mime and check_dates *)
+Theorem C01_glue_subcheck_order : forall reset,
+  map fst (MC.run_plan reset false MC.subcheck_plan) =
+  [MC.lit "check_comments"; MC.lit "check_headers"; MC.lit "check_language"; MC.lit "check_plurals"; MC.lit "check_mime";
+   MC.lit "check_dates"; MC.lit "check_project"; MC.lit "check_translator"; MC.lit "check_messages"].
+Proof. exact PC.subcheck_order. Qed.
+Print Assumptions C01_glue_subcheck_order.
+
+Theorem C01_glue_subcheck_reset_seen : forall reset,
+  map snd (MC.run_plan reset false MC.subcheck_plan) = [false; false; false; false; false; reset; reset; reset; reset].
+Proof. exact PC.subcheck_reset_seen. Qed.
+Print Assumptions C01_glue_subcheck_reset_seen.
+
+(* non-vacuity *)
+Definition glue_ex_load (first retry : MC.load_result) : MC.loader -> option MC.text -> MC.load_result :=
+  fun _ enc => match enc with None => first | Some _ => retry end.
+Definition glue_ex_msg : MC.text := MC.lit "Syntax error in po file d/a.po (line 12): unknown keyword msgfoo".
+Example C01_glue_ex_po_syntax_error :
+  MC.check_top MC.upper_ascii MC.StatOk None (MC.lit "d/a.po") (glue_ex_load (MC.LOSNoErrno glue_ex_msg) MC.LFile) =
+  MC.Res [MC.Ev (MC.lit "syntax-error-in-po-file") [ASafe (MC.lit "line 12:"); ASafe (MC.lit "unknown keyword msgfoo")]]
+         [(MC.Pofile, None)] MC.Returned.
+Proof. vm_compute. reflexivity. Qed.
+Example C01_glue_ex_po_syntax_error_escaped :     (* upper case, a quote, another path: plain str *)
+  map MC.ev_args (MC.r_events (MC.check_top MC.upper_ascii MC.StatOk None (MC.lit "a.po")
+     (glue_ex_load (MC.LOSNoErrno (MC.lit "Syntax error in po file b.po (line 3): unknown keyword ""X""")) MC.LFile))) =
+  [[AStr (MC.lit "b.po (line 3): unknown keyword ""X""")]] /\
+  map MC.ev_args (MC.r_events (MC.check_top MC.upper_ascii MC.StatOk None (MC.lit "a.po")
+     (glue_ex_load (MC.LOSNoErrno (MC.lit "Syntax error in po file a.po (line 3): unknown keyword ""X""")) MC.LFile))) =
+  [[ASafe (MC.lit "line 3:"); AStr (MC.lit "unknown keyword ""X""")]].
+Proof. vm_compute. split; reflexivity. Qed.
+Example C01_glue_ex_escapes :
+  MC.r_end (MC.check_top MC.upper_ascii MC.StatOk None (MC.lit "a.po") (glue_ex_load (MC.LOSNoErrno (MC.lit "foo")) MC.LFile))
+    = MC.Raised (MC.ROSError (MC.lit "foo")) /\
+  MC.r_end (MC.check_top MC.upper_ascii MC.StatOk (Some (MC.lit "mo")) (MC.lit "a.po") (glue_ex_load (MC.LOther (MC.lit "UnicodeError")) MC.LFile))
+    = MC.Raised (MC.RExc (MC.lit "UnicodeError")) /\
+  MC.check_top MC.upper_ascii MC.StatOk None (MC.lit "a.po") (glue_ex_load (MC.LDecodeError [1; 2; 3]%N 1 (MC.lit "utf-8")) (MC.LDecodeError [] 0 [])) =
+    MC.Res [MC.Ev (MC.lit "broken-encoding") [ABytes [1; 2; 3]%N; ASafe (MC.lit "cannot be decoded as"); AStr (MC.lit "UTF-8")]]
+           [(MC.Pofile, None); (MC.Pofile, Some (MC.lit "ISO-8859-1"))] (MC.Raised MC.RUnicodeDecodeError).
+Proof. vm_compute. repeat split. Qed.
+Example C01_glue_ex_dispatch :
+  map (fun p => MC.extension None (MC.lit p))
+      ["a.po"; "a.pot"; "a.mo"; "a.gmo"; "a.txt"; "a"; ".po"; "a.po.bak"; "dir.po/a"; "a.PO"; "a.po "; "..po"; "a..po"; "x/.b.mo"]%string =
+  map MC.lit [".po"; ".pot"; ".mo"; ".gmo"; ".txt"; ""; ""; ".bak"; ""; ".PO"; ".po "; ""; ".po"; ".mo"]%string.
+Proof. vm_compute. reflexivity. Qed.
+Example C01_glue_ex_runs :
+  MC.check_top MC.upper_ascii MC.StatOk None (MC.lit "x.pot") (glue_ex_load (MC.LDecodeError [7]%N 0 (MC.lit "ascii")) MC.LFile) =
+  MC.Res [MC.Ev (MC.lit "broken-encoding") [ABytes [7%N]; ASafe (MC.lit "cannot be decoded as"); AStr (MC.lit "ASCII")]]
+         [(MC.Pofile, None); (MC.Pofile, Some MC.latin1)] (MC.RunSubchecks true false true).
+Proof. vm_compute. reflexivity. Qed.
 
 (* ---- the handlers: exception flow from the tool's own raise statements to the except clauses of the checker.
    Generated/RaiseSites.v is rewritten from the python ast of /repo/lib on every run (tools/gen/gen_raisesites.py):
